@@ -9,7 +9,8 @@ EXPLANATION = ("Decides structural clauses of C10, not the behaviour: every dige
                "after the crc24_status branch and the header/footer type comparison; crc24_status reports CheckedOk only on the equal edge of "
                "comparing the footer checksum with Hasher::finish of the accumulated CRC; both armor body writers build a 64-column LF LineWriter "
                "(type-level column count decoded from the call's generic argument) fed through a TeeWriter into the CRC that write_footer emits "
-               "as three octets; buffered tails are finished explicitly. Not decided: round trip for all lengths, tolerant-reading equivalences.")
+               "as three octets; buffered tails are finished explicitly. Not decided: round trip for all lengths, tolerant-reading equivalences."
+               ' Also: block-type words (writer = parser = RFC), framing literals, `: ` separator on every header line, structural BlockType equality at the footer, explicit finishers reach the inner finisher, the header grammar restores Incomplete for a cut line, and (shared with C04) the R-panic inventory over armor / base64 / line-writer.')
 ASSUMPTIONS = ["crc24::Crc24Hasher and the base64 crate are correct"]
 
 
